@@ -86,7 +86,17 @@ func HarnessC12_nested() {
 	c := ndScalarNN()
 	inList := ndChoice(2) == 1
 	var doc, want map[string]any
-	if inList {
+	if !inList && ndChoice(2) == 1 {
+		// a repeated map entry under a PLAIN key: every copy lands on the
+		// same key, the last one stays; no copy, no key
+		doc = map[string]any{"m": map[string]any{"z": 0, "side": map[string]any{"$repeat": n, "v": "$repeat", "c": c}}}
+		m := map[string]any{"z": 0}
+		if k > 0 {
+			m["side"] = map[string]any{"v": k - 1, "c": c}
+		}
+		want = map[string]any{"m": m}
+		vCover("nested.map")
+	} else if inList {
 		doc = map[string]any{"l": []any{"first", map[string]any{"$repeat": n, "v": "$repeat", "s": `$"x{$repeat}"`, "c": c}, "last"}}
 		l := []any{"first"}
 		for i := 0; i < k; i++ {
